@@ -149,7 +149,12 @@ class KeysView(list):
 
 
 def py_iter(I, it):
+    from .absx import AbsColl
+    if isinstance(it, AbsColl):
+        raise OutOfReach(f"iteration over the abstract collection {it.name} without a loop contract")
     if isinstance(it, MDict):
+        if it.tail is not None:
+            raise OutOfReach("iteration over a dict with an abstract tail without a loop contract")
         return [k for k, _ in it.entries]
     if is_sym(it):
         if it.sort == S.STR:
@@ -241,6 +246,11 @@ def _mfind(I, d: MDict, key):
         c = py_eq(I, k, key)
         if I.ctx.branch(c):
             return i
+    if d.tail is not None:
+        # the explicit entries are, by the harness convention, all the keys in ``tail['explicit']``;
+        # any other key may or may not be in the abstract tail
+        if not (not is_sym(key) and key in d.tail.get("absent", ())):
+            raise OutOfReach(f"lookup of {key!r} in a dict with an abstract tail")
     return None
 
 
@@ -248,6 +258,8 @@ def mdict_contains(I, d, key):
     if isinstance(key, (list, dict, MDict, set)):
         raise PyRaise(TypeError, ("unhashable type",), "in")
     key = d.fold(key)
+    if d.tail is not None and not (not is_sym(key) and (key in d.tail.get("absent", ()) or any((not is_sym(k)) and k == key for k, _ in d.entries))):
+        raise OutOfReach(f"membership of {key!r} in a dict with an abstract tail")
     return S.or_(*[py_eq(I, k, key) for k, _ in d.entries])
 
 
@@ -297,6 +309,12 @@ def mdict_delitem(I, d, key):
 
 
 _MISSING = object()
+
+
+def _tail_or(d, what, concrete):
+    if d.tail is None:
+        return concrete
+    return d.tail[what]
 
 
 def mdict_pop(I, d, key, default=_MISSING):
@@ -352,9 +370,9 @@ _MDICT_METHODS = {
     "setdefault": mdict_setdefault,
     "update": mdict_update,
     "move_to_end": mdict_move_to_end,
-    "keys": lambda I, d: KeysView(k for k, _ in d.entries),
-    "values": lambda I, d: [v for _, v in d.entries],
-    "items": lambda I, d: [(k, v) for k, v in d.entries],
+    "keys": lambda I, d: _tail_or(d, "keys", KeysView(k for k, _ in d.entries)),
+    "values": lambda I, d: _tail_or(d, "values", [v for _, v in d.entries]),
+    "items": lambda I, d: _tail_or(d, "items", [(k, v) for k, v in d.entries]),
     "has_key": lambda I, d, k: mdict_contains(I, d, k),
     "copy": lambda I, d: MDict(d.pycls, d.ci, d.factory, d.entries),
     "__contains__": lambda I, d, k: mdict_contains(I, d, k),
